@@ -11,6 +11,8 @@ C11 line protocol.  One line = one whole history:
   n0   the receiver starts as IndexedSet(range(n0))
   mutators   a<x> add   r<x> remove   d<x> discard   p pop()   P<i> pop(i)   c clear
              s0|s1 sort(reverse=0|1)   v reverse
+             y<rev>|<key>|<bad> sort(key=<key>, reverse=<rev>) where comparing any item of <bad> raises;
+                    <key> = i identity / n negated / m<k> x%k / d<k> x//k / c constant
              u<ops> update   n<ops> intersection_update   m<ops> difference_update
              x<op> symmetric_difference_update
   queries    i iter   l len   h<x> in   g<i> s[i]   :<a>,<b>,<c> s[a:b:c] (`_` = None)
@@ -20,7 +22,11 @@ C11 line protocol.  One line = one whole history:
              f<nk> full dump (iter | reversed | len | s[i] for -n<=i<n | index of each | x in s for x<nk)
   <ops> = operands separated by `/` (none at all = no operand); an operand is a kind letter
           (S = the receiver itself, I = another IndexedSet, C = set/frozenset/list/tuple)
-          followed by the items its iteration yields, comma separated (`-` = empty)
+          followed by the items its iteration yields, comma separated (`-` = empty),
+          or R<k> = the set in register k as it is now (the current register = the receiver itself)
+  registers  @<k> the following tokens act on register k (0 = the receiver; must exist)
+             +<query token> run the query (U N M X : i) on the current register and keep the set it
+                    returns as a new register
   `consts` prints the generated constants.
 
 Output: one `;`-separated record per token:
@@ -34,6 +40,7 @@ def errName : Err → String
   | .indexError => "IndexError"
   | .valueError => "ValueError"
   | .domain => "OutOfModel"
+  | .cmpError => "CmpError"
 
 def showOut : Out Nat → String
   | .unit => "N"
@@ -43,20 +50,39 @@ def showOut : Out Nat → String
   | .list l => "L" ++ showNats l
   | .err e => "X" ++ errName e
 
-def parseOperand? (w : String) : Option (Operand Nat) :=
+/-- `views` = what iterating each register yields now, `cur` = the register operated on -/
+def parseOperand? (views : List (List Nat)) (cur : Nat) (w : String) : Option (Operand Nat) :=
   let rest := (w.drop 1).toString
   match w.front with
   | 'S' => some ⟨.self, []⟩
   | 'I' => (natList? rest).map fun l => ⟨.iset, l⟩
   | 'C' => (natList? rest).map fun l => ⟨.coll, l⟩
+  | 'R' => match rest.toNat? with
+    | some k => if k = cur then some ⟨.self, []⟩ else (views[k]?).map fun l => ⟨.iset, l⟩
+    | none => none
   | _ => none
 
-def parseOperands? (s : String) : Option (List (Operand Nat)) :=
+def parseOperands? (views : List (List Nat)) (cur : Nat) (s : String) : Option (List (Operand Nat)) :=
   if s = "" then some [] else
   (splitOnChar s '/').foldr (fun w acc =>
-    match acc, parseOperand? w with
+    match acc, parseOperand? views cur w with
     | some l, some o => some (o :: l)
     | _, _ => none) (some [])
+
+/-- the order induced by a sort key -/
+def keyLe? (k : String) : Option (Nat → Nat → Bool) :=
+  let rest := (k.drop 1).toString
+  match k.front with
+  | 'i' => if rest = "" then some (fun a b => decide (a ≤ b)) else none
+  | 'n' => if rest = "" then some (fun a b => decide (b ≤ a)) else none
+  | 'c' => if rest = "" then some (fun _ _ => true) else none
+  | 'm' => match rest.toNat? with
+    | some (m + 1) => some (fun a b => decide (a % (m + 1) ≤ b % (m + 1)))
+    | _ => none
+  | 'd' => match rest.toNat? with
+    | some (m + 1) => some (fun a b => decide (a / (m + 1) ≤ b / (m + 1)))
+    | _ => none
+  | _ => none
 
 def optInt? (w : String) : Option (Option Int) :=
   if w = "_" then some none else w.toInt?.map some
@@ -84,8 +110,10 @@ def full (s : ISet Nat) (nk : Nat) : String :=
     joinOr (s.toList.map (showIndex s)),
     joinOr ((List.range nk).map fun x => if s.contains x then "1" else "0")]
 
-def parseOp? (tok : String) : Option (Op Nat) :=
+def parseOp? (views : List (List Nat)) (cur : Nat) (tok : String) : Option (Op Nat) :=
   let rest := (tok.drop 1).toString
+  let parseOperands? := parseOperands? views cur
+  let parseOperand? := parseOperand? views cur
   match tok.front with
   | 'a' => rest.toNat?.map .add
   | 'r' => rest.toNat?.map .remove
@@ -95,6 +123,12 @@ def parseOp? (tok : String) : Option (Op Nat) :=
   | 'c' => if rest = "" then some .clear else none
   | 's' => if rest = "0" then some (.sort false) else if rest = "1" then some (.sort true) else none
   | 'v' => if rest = "" then some .reverse else none
+  | 'y' => match splitOnChar rest '|' with
+    | [r, k, b] => match keyLe? k, natList? b with
+      | some lek, some bad =>
+        if r = "0" then some (.sortBy lek false bad) else if r = "1" then some (.sortBy lek true bad) else none
+      | _, _ => none
+    | _ => none
   | 'u' => (parseOperands? rest).map .update
   | 'n' => (parseOperands? rest).map .interUpdate
   | 'm' => (parseOperands? rest).map .diffUpdate
@@ -125,21 +159,34 @@ def natLe (a b : Nat) : Bool := a ≤ b
 
 def sortedNats (l : List Nat) : List Nat := l.mergeSort natLe
 
-def stepTok (cfg : Cfg) (s : ISet Nat) (tok : String) : Option (ISet Nat × String) :=
-  if tok.front = 'f' then
-    ((tok.drop 1).toString.toNat?).map fun nk => (s, full s nk)
-  else
-    (parseOp? tok).map fun op =>
-      let r := step cfg leNat s op
-      match op, r.2 with
-      | .rsub _, .list l => (r.1, "S" ++ showNats (sortedNats l))
-      | _, out => (r.1, showOut out)
+def showStep (op : Op Nat) (out : Out Nat) : String :=
+  match op, out with
+  | .rsub _, .list l => "S" ++ showNats (sortedNats l)
+  | _, out => showOut out
 
-def runToks (cfg : Cfg) : ISet Nat → List String → List String → Option (List String)
+def stepTok (cfg : Cfg) (m : Mach Nat) (tok : String) : Option (Mach Nat × String) :=
+  let rest := (tok.drop 1).toString
+  match tok.front with
+  | 'f' => (rest.toNat?).map fun nk => (m, full m.curSet nk)
+  | '@' => match rest.toNat? with
+    | some k => if k < m.regs.length then some ((mstep cfg leNat m (.sel k)).1, "N") else none
+    | none => none
+  | '+' =>
+    let cur := m.cur
+    (parseOp? m.views cur rest).map fun op =>
+      let r := mstep cfg leNat m (.fork fun vs => (parseOp? vs cur rest).getD .iter)
+      (r.1, showStep op r.2)
+  | _ =>
+    let cur := m.cur
+    (parseOp? m.views cur tok).map fun op =>
+      let r := mstep cfg leNat m (.run fun vs => (parseOp? vs cur tok).getD .iter)
+      (r.1, showStep op r.2)
+
+def runToks (cfg : Cfg) : Mach Nat → List String → List String → Option (List String)
   | _, [], acc => some acc.reverse
-  | s, t :: ts, acc =>
-    match stepTok cfg s t with
-    | some (s', out) => runToks cfg s' ts (out :: acc)
+  | m, t :: ts, acc =>
+    match stepTok cfg m t with
+    | some (m', out) => runToks cfg m' ts (out :: acc)
     | none => none
 
 def handle (line : String) : String :=
@@ -149,7 +196,7 @@ def handle (line : String) : String :=
     match cf.toNat?, n0.toNat? with
     | some cf, some n0 =>
       let cfg : Cfg := ⟨if cf = 0 then Gen.COMPACTION_FACTOR else cf, Gen.CULL_INTERVAL_LIMIT⟩
-      match runToks cfg (ISet.ofList (List.range n0)) toks [] with
+      match runToks cfg ⟨[ISet.ofList (List.range n0)], 0⟩ toks [] with
       | some outs => ";".intercalate outs
       | none => "bad-op"
     | _, _ => "bad-op"
